@@ -59,11 +59,13 @@ CLAIMED = {
    note='Bounded: parser layer (6000 generated expressions per quick run, 60000 thorough), regular-expression based WildcardMatcher, EqMatcher over untyped values. Trusted: Matcher.matches interface contract for sub-matchers (pure), field schema. simplify() is covered only through the bounded comparison.',
    technique='contract-based deductive verification of every matches override (defining contracts, loop invariants); bounded native contract evaluation for the string parser'),
  'C01': dict(level='other', design='6.C01',
-   text='Within the verifier: end_of_str (for backslash-free text it stops at the next quote after the opening one or at the end; always moves forward; terminates) and argument_list_strs (never fails, terminates, nothing from the empty text) - discharged obligations on the real loops. '
+   text='Within the verifier (discharged obligations on the real loops): end_of_str stops at the next quote after the opening one or at the end, always moves forward, terminates; '
+        'argument_list_strs - for text without backslashes - returns exactly the pieces between the `, ` separators that lie outside quoted text: joined by `, ` the items give the text back, every cut is at such a separator and no item contains one '
+        '(recursive spec functions inq / off, three induction lemmas, nine loop invariants): string arguments containing commas, brackets, parentheses or spaces never split or merge neighbouring arguments. '
         'The decoding itself is regular-expression matching, outside the verifier: parse.message is under a bounded stand-in - messages are generated as abstract values, rendered as libwayland prints them in both dialects (every argument kind in every position, 0..20 arguments, 32-bit boundary values, both fixed renderings, '
         'array / array[N], queue and connection tags, strings with commas, brackets, parentheses, quotes-free look-alike message text) and the decoded message is compared field by field; generated non-message lines must raise. '
         'The stand-in found four genuine defects on the pinned tree (array[N], empty string, message-like string argument, greedy queue tag), each repaired by its own fix: commit.',
-   note='Bounded, not proved: 4000 generated lines per quick run, 60000 per thorough run. `new id T@nil`, discarded lines and locale commas in the current dialect are outside the generator. The positions at which argument_list_strs cuts are only checked through the bounded comparison. Timestamps (ms -> s) are not compared (C16 fixes the time base).',
+   note='Bounded, not proved: 4000 generated lines per quick run, 60000 per thorough run. `new id T@nil`, discarded lines and locale commas in the current dialect are outside the generator. Backslashes inside strings are outside the proved precondition (and outside the property). Timestamps (ms -> s) are not compared (C16 fixes the time base).',
    technique='contract-based deductive verification of the two string loops; bounded native contract evaluation (reference renderer of wl_closure_print) for the regular-expression decoder'),
  'C17': dict(level='other', design='6.C17',
    text='Proved: core.util.color returns its text unchanged when colour is off (so nothing that goes through it adds an escape sequence) and wraps it in exactly one SGR sequence and one reset when on. '
